@@ -1440,6 +1440,7 @@ EGLPNUM_TYPENAME_QSLIB_INTERFACE int EGLPNUM_TYPENAME_QSchange_senses (
 		}
 	}
 
+	p->factorok = 0;
 	free_cache (p);
 
 CLEANUP:
@@ -1521,6 +1522,7 @@ EGLPNUM_TYPENAME_QSLIB_INTERFACE int EGLPNUM_TYPENAME_QSchange_coef (
 	rval = EGLPNUM_TYPENAME_ILLlib_chgcoef (p->lp, rowindex, colindex, coef);
 	CHECKRVALG (rval, CLEANUP);
 
+	p->factorok = 0;
 	free_cache (p);
 
 CLEANUP:
@@ -1583,6 +1585,7 @@ EGLPNUM_TYPENAME_QSLIB_INTERFACE int EGLPNUM_TYPENAME_QSchange_bounds (
 	rval = EGLPNUM_TYPENAME_ILLlib_chgbnds (p->lp, num, collist, lu, bounds);
 	CHECKRVALG (rval, CLEANUP);
 
+	p->factorok = 0;
 	free_cache (p);
 
 CLEANUP:
@@ -1604,6 +1607,7 @@ EGLPNUM_TYPENAME_QSLIB_INTERFACE int EGLPNUM_TYPENAME_QSchange_bound (
 	rval = EGLPNUM_TYPENAME_ILLlib_chgbnd (p->lp, indx, lu, bound);
 	CHECKRVALG (rval, CLEANUP);
 
+	p->factorok = 0;
 	free_cache (p);
 
 CLEANUP:
